@@ -311,3 +311,9 @@ def run(ctx):
     from engine.whdiv import wh_div
     n_wd = wh_div(ctx, prog)
     ctx.require(n_wd >= 10, 'only %d divisions by SF_INFO fields found in the header writers' % n_wd)
+
+    ctx.rule('INIT-ERR', 'in every container open function that psf_open_file dispatches to (*_open), the result of a codec / sub-format init (`error = x_init (...)`) is tested or returned on every path to '
+             'the function exit: a failing init (SFE_BAD_MODE_RW for a codec without SFM_RDWR support, SFE_MALLOC_FAILED ...) must fail the open, not leave a handle without read / write functions', floor=80)
+    from engine.initerr import init_err
+    n_ie = init_err(ctx, prog)
+    ctx.require(n_ie >= 80, 'only %d init results found in the container open functions' % n_ie)
